@@ -96,7 +96,7 @@ func vfHasZero(xs []tables.GlyphID) bool {
 func VfH_C11_cmap4() {
 	maxSeg, maxSize := 2, 2
 	if vfThorough() {
-		maxSeg, maxSize = 3, 3
+		maxSeg, maxSize = 2, 3
 	}
 	nseg := vfChoice("nseg", maxSeg+1)
 	cm, total := vfMkCmap4(nseg, maxSize)
